@@ -40,6 +40,18 @@ type MapV struct {
 	// Exact: the listed keys are all there is - a lookup whose key is known to differ from every listed key misses (and
 	// yields the zero value). Otherwise a miss is unknown (the map stands for a larger one).
 	Exact bool
+	// Ref: the map is a reference to shared storage (Go semantics: a map handed to a callee is the caller's map). Only
+	// maps created by make() while Interp.RefMaps is set have it; all other abstract maps are values that are written back
+	// into their holder.
+	Ref *MapV
+}
+
+// D: the storage of the map.
+func (m MapV) D() MapV {
+	if m.Ref != nil {
+		return *m.Ref
+	}
+	return m
 }
 type StrV string
 
@@ -288,6 +300,11 @@ type Closure struct {
 	Env *Env
 	Pkg *packages.Package
 }
+// NativeV: a function value supplied by the analysis (a callback that records what it is called with).
+type NativeV struct {
+	F func(args []Val) Val
+}
+
 type FuncRef struct {
 	Fi   *FuncInfo
 	Recv Val
@@ -352,6 +369,7 @@ type Interp struct {
 	pkgVars   map[types.Object]*Val
 	// optional hooks for analyses that evaluate code over synthetic objects: a field an object does not have, and a
 	// call that has neither a model nor a body (an interface method). t is the static type of the result.
+	RefMaps       bool // make(map) yields a reference map (see MapV.Ref)
 	FieldFallback func(o *Obj, name string, t types.Type) (Val, bool)
 	CallFallback  func(fn *types.Func, recv Val, args []Val, t types.Type) (Val, bool)
 }
@@ -690,6 +708,7 @@ func (in *Interp) exec(pkg *packages.Package, env *Env, s ast.Stmt) ctl {
 	case *ast.RangeStmt:
 		xv := in.eval(pkg, env, st.X)
 		if mv, isMap := xv.(MapV); isMap {
+			mv = mv.D()
 			for i := range mv.Keys {
 				e2 := newEnv(env)
 				if id, ok := st.Key.(*ast.Ident); ok && id.Name != "_" {
@@ -1057,6 +1076,19 @@ func (in *Interp) store(pkg *packages.Package, env *Env, l ast.Expr, v Val) {
 		// writes into a known map are tracked (the map value is rebuilt and stored back into its holder); other element writes are not
 		if mv, ok := in.eval(pkg, env, x.X).(MapV); ok {
 			k := in.eval(pkg, env, x.Index)
+			if mv.Ref != nil {
+				// reference map: update the shared storage in place
+				st := mv.Ref
+				for i, kk := range st.Keys {
+					if t, known := eqVal(kk, k); known && t {
+						st.Vals[i] = v
+						return
+					}
+				}
+				st.Keys = append(st.Keys, k)
+				st.Vals = append(st.Vals, v)
+				return
+			}
 			nm := MapV{Keys: append([]Val{}, mv.Keys...), Vals: append([]Val{}, mv.Vals...), Exact: mv.Exact}
 			found := false
 			for i, kk := range nm.Keys {
@@ -1204,6 +1236,7 @@ func (in *Interp) eval(pkg *packages.Package, env *Env, e ast.Expr) Val {
 			}
 		}
 		if mv, ok := base.(MapV); ok {
+			mv = mv.D()
 			commaOk := false
 			if tv, isTuple := info.Types[e].Type.(*types.Tuple); isTuple && tv.Len() == 2 {
 				commaOk = true
@@ -1543,8 +1576,8 @@ func (in *Interp) evalCall(pkg *packages.Package, env *Env, call *ast.CallExpr) 
 				if _, isNil := v.(NilV); isNil {
 					return ConstV{V: constant.MakeInt64(0), T: types.Typ[types.Int]}
 				}
-				if mv, ok := v.(MapV); ok && mv.Exact {
-					return ConstV{V: constant.MakeInt64(int64(len(mv.Keys))), T: types.Typ[types.Int]}
+				if mv, ok := v.(MapV); ok && mv.D().Exact {
+					return ConstV{V: constant.MakeInt64(int64(len(mv.D().Keys))), T: types.Typ[types.Int]}
 				}
 				return Unk{"len"}
 			case "append":
@@ -1567,6 +1600,9 @@ func (in *Interp) evalCall(pkg *packages.Package, env *Env, call *ast.CallExpr) 
 							return SliceV{}
 						}
 						if _, isMap := t.Underlying().(*types.Map); isMap {
+							if in.RefMaps {
+								return MapV{Ref: &MapV{Exact: true}}
+							}
 							return MapV{}
 						}
 					}
@@ -1633,6 +1669,8 @@ func (in *Interp) evalCall(pkg *packages.Package, env *Env, call *ast.CallExpr) 
 			return in.callClosure(f, args)
 		case FuncRef:
 			fn, recv = f.Fn, f.Recv
+		case NativeV:
+			return f.F(args)
 		case NilV:
 			in.event("panic", "call of nil function "+in.L.Src(call.Fun), call.Pos())
 			return abortV{}
